@@ -190,6 +190,9 @@ def _definition(m, kind):
     regs = table.keys() if m.sym else list(table.keys())
     m.prove("registered_under_fullname", z3.And(z3.BoolVal(len(regs) == 1), Z(regs[0] == want_full) if len(regs) == 1 else z3.BoolVal(False)),
             "definition not registered under its full name")
+    added = names.added if m.sym else sorted(names - {taken})
+    m.prove("name_marked_as_taken", z3.And(z3.BoolVal(len(added) == 1), Z(added[0] == want_full) if len(added) == 1 else z3.BoolVal(False)),
+            "the set of taken names does not receive exactly the definition's full name (later redefinitions would go unnoticed)")
     if ref is not None:
         target = spec_ref(ref, want_ns)
         m.prove("field_ref.unknown_iff_undefined", target == want_full, "reference to an undefined name accepted inside a record")
@@ -257,9 +260,9 @@ def specs(tier):
         dict(harness=h_reference, prefix="names.char.reference", expect=["unknown_iff_undefined", "resolves_to_fullname", "unknown_names_the_type"],
              max_paths=20000, budget_s=b),
         dict(harness=h_def_enum, prefix="names.char.def_enum",
-             expect=["redefinition_iff_taken", "carries_fullname", "registered_under_fullname"], max_paths=40000, budget_s=b),
+             expect=["redefinition_iff_taken", "carries_fullname", "registered_under_fullname", "name_marked_as_taken"], max_paths=40000, budget_s=b),
         dict(harness=h_def_fixed, prefix="names.char.def_fixed",
-             expect=["redefinition_iff_taken", "carries_fullname", "registered_under_fullname"], max_paths=40000, budget_s=b),
+             expect=["redefinition_iff_taken", "carries_fullname", "registered_under_fullname", "name_marked_as_taken"], max_paths=40000, budget_s=b),
         dict(harness=h_def_record, prefix="names.char.def_record",
              expect=["redefinition_iff_taken", "carries_fullname", "registered_under_fullname", "field_ref.resolves",
                      "field_ref.unknown_iff_undefined"], max_paths=40000, budget_s=b),
